@@ -251,5 +251,24 @@ def decodePoints (level dim maxPoints : Nat) : DecM (Nat × List (List Nat)) := 
   | none => fail
   | some (pts, st) => pure (st.decoded, pts)
 
+open DecM in
+/-- `DecodePoints` for every bitstream version: `legacy` = bitstream < 2.2, where
+    `RAnsBitDecoder::StartDecoding` reads its section size as a fixed `uint32_t` instead of a varint
+    (the only version dependence of the tree coder).  `decodePoints = decodePointsL false`. -/
+def decodePointsL (legacy : Bool) (level dim maxPoints : Nat) : DecM (Nat × List (List Nat)) := do
+  let bitLength ← rdU32
+  require (bitLength ≤ 32)
+  let numPoints ← rdU32
+  if numPoints = 0 then pure (0, []) else
+  require (numPoints ≤ maxPoints)
+  let num ← startNumbers legacy level
+  let rem ← startDirect
+  let axis ← startDirect
+  let half ← startDirect
+  let P : Params := ⟨dim, bitLength, level == 6, numPoints⟩
+  match decodeInternal (coders legacy) P ⟨num, rem, axis, half⟩ with
+  | none => fail
+  | some (pts, st) => pure (st.decoded, pts)
+
 end Kd
 end Draco
